@@ -142,6 +142,14 @@ def run_shard(ctx: Context, res: ShardResult) -> None:
                 continue
             sc = gen.gen_scenario(r, cls)
             one(prop, sc, res, other)
+        if prop == "C09":
+            # directed: the quote symbol's precision is refined after the pair has traded (own random stream, so the
+            # scenarios above are the same as before this class existed)
+            for idx in range(ctx.shard, 96 if ctx.tier == "quick" else 4800, ctx.nshards):
+                if ctx.out_of_time():
+                    res.errors.append("ran out of time during the micro_c09 runs")
+                    break
+                micro.run_micro("micro_c09", ctx.rng("micro_c09", idx), prop, res, other)
         if prop == "C04":
             # exhaustive sweep of the finite micro space: every weak ordering x order kind x side
             n = micro.c04_space_size()
